@@ -109,7 +109,8 @@ def check(ctx):
                "C01/C05): a facade method that writes the shared list itself and adopts afterwards leaves a refused task listed", floor=20)
 
     def _own(o):
-        c01.own(ctx, o, eff)
+        from .c05 import own_shared
+        own_shared(ctx, o, eff)
     ctx.guarded(o, _own)
 
     o = ctx.ob('removal_paths_delegate', 'R8',
